@@ -27,6 +27,14 @@ declared with another Type or Number, the declarations in another order, under o
 and without INFO lines, same declarations but other Description / ##source / sample count; columns evaluated right after each read
 or after all reads (lazy objects); every other format with another number of header lines and records.
 
+Explicit '+' signs (zones plus-signed / plus+minus-signed / plus-signed-float): every integer-valued column of every format - BED
+start/stop/score/thickStart/thickEnd/blockCount and the elements of blockSizes/blockStarts, bedGraph, wig, narrowPeak incl. summit,
+chrom.sizes, GTF/GFF3, pairs, SAM FLAG/POS/MAPQ/PNEXT/TLEN, VCF POS, VCF INFO Integer Number=1/./2 - one column at a time over 1..3
+records with tuples of unsigned, '+'-signed (1, 2, 7 (thorough 10, 18) digits, '+0') and '-'-signed tokens holding at least one '+'
+token: a column with '+' and no '-' value is the class plus-signed, one with both plus+minus-signed; all integer columns '+'-signed at
+once; float columns (bedGraph, wig, narrowPeak x 3, INFO Float scalar / list) with a leading '+' on decimal and scientific texts: the
+class plus-signed-float, under the label 'float-column' instead of the format (one class whatever the format).
+
 Signatures: <format>:<column>:wrong-value:<zone> | <format>:count:wrong-number-of-entries:<zone> |
 <format>:exception:<root cause type>:<zone>; zone = class of the input (plain, empty, dot+number, signed, sci,
 list-trailing-comma, crlf, header, interior-comments, comment-with-tab, short-info-text, long-float, long-float-sci,
@@ -1166,6 +1174,212 @@ def check_history(col, tmp, fmt, texts, relation, mode, order):
                 verify_history_file(col, fmt, ds[i], datas[i], zone, case)
 
 
+# ---- numbers written with an explicit '+' sign (every integer-valued column of every format; float columns)
+PLUS_INT_KINDS = ("int", "sint", "pos1", "optint")
+PLUS_FLOAT_TOKENS = ["+3", "+0.5", "+12.25", "+1234.125", "+0.000125", "+1e-3", "+2.5e2", "+7.5e+1"]
+PLUS_INFO_KEYS = [("A", "1"), ("AC", "."), ("MQ2", "2")]          # the Integer keys of INFO_DECL: scalar, list, list of two
+PLUS_SHARED_READER = ("bed3of6", "bedgraph", "wig", "gff3", "gtf")   # quick: coordinates read by the code that reads BED3's
+
+
+def plus_pools(tier, kind):
+    """(U, Pl, M): unsigned / '+'-signed / '-'-signed integer tokens (label, fn(r, c), sign).  '+' widths 1, 2, 7 digits
+    (thorough: also 10 and 18) and '+0'; VCF POS is not given negative values"""
+    quick = tier == "quick"
+    U = [("u%d" % w, (lambda r, c, w=w: t_int(w, r, c)), "u") for w in (1, 2, 7)]
+    Pl = [("+%d" % w, (lambda r, c, w=w: "+" + t_int(w, r, c)), "+") for w in ((1, 2, 7) if quick else (1, 2, 7, 10, 18))]
+    Pl.append(("+0", (lambda r, c: "+0"), "+"))
+    M = [] if kind == "pos1" else [("-%d" % w, (lambda r, c, w=w: "-" + t_int(w, r, c)), "-") for w in (1, 2)]
+    return U, Pl, M
+
+
+def plus_tuples(U, Pl, M, n, quick):
+    """n-tuples of tokens of one column over n records, each with at least one '+' token.
+    n = 1: every '+' token.  n = 2: quick - every '+' token before and after an unsigned token of another width, another '+'
+    token, itself and a '-' token; thorough - every ordered pair.  n = 3: every '+' token at every record position (quick: at
+    one, rotating) between two unsigned tokens of different widths / an unsigned and another '+' token / an unsigned and a '-'
+    token, three '+' tokens; thorough - also a covering subset of the full product (every token at every position next to
+    several neighbours)"""
+    pool = U + Pl + M
+    k = len(pool)
+    out = []
+    if n == 1:
+        out = [(p,) for p in Pl]
+    elif n == 2:
+        if not quick:
+            out = [t for t in itertools.product(pool, repeat=2)]
+        else:
+            for i, p in enumerate(Pl):
+                partners = [U[(i + 1) % len(U)], Pl[(i + 1) % len(Pl)], p] + ([M[i % len(M)]] if M else [])
+                for q in partners:
+                    out += [(p, q), (q, p)]
+    else:
+        for i, p in enumerate(Pl):
+            for pos in (range(3) if not quick else [i % 3]):
+                u1, u2 = U[(i + pos) % len(U)], U[(i + pos + 1) % len(U)]
+                for others in ([u1, u2], [Pl[(i + 1 + pos) % len(Pl)], u1], [u2, M[(i + pos) % len(M)]] if M else None):
+                    if others is not None:
+                        out.append(tuple(others[:pos] + [p] + others[pos:]))
+            out.append((p, Pl[(i + 1) % len(Pl)], Pl[(i + 2) % len(Pl)]))
+        if not quick:
+            out += [(pool[i], pool[(i + d) % k], pool[(i + e) % k]) for i in range(k) for d in (0, 1, 3, 5) for e in (0, 2, 5, 7)]
+    seen, res = set(), []
+    for t in out:
+        key = tuple(p[0] for p in t)
+        if key not in seen and any(p[2] == "+" for p in t):
+            seen.add(key)
+            res.append(t)
+    return res
+
+
+def plus_zone(signs):
+    """'plus-signed' = the column holds '+'-signed and no '-'-signed value; 'plus+minus-signed' = both.  LF files only (a CRLF
+    twin would fall into the class 'crlf'; CR next to a signed last column is in the scope of the zone 'signed')"""
+    return "plus+minus-signed" if "-" in signs else "plus-signed"
+
+
+def plus_list_text(tok, r, i, exact=None):
+    """text of a list-valued integer column of record r whose focus element is `tok`: 1..3 elements (exact: that many), the
+    focus at a rotating position, the other elements unsigned or '+'-signed, of other widths; no trailing comma"""
+    m = exact or 1 + (r + i) % 3
+    elems = [("+" if (r + i + e) % 3 == 0 else "") + t_int(1 + (r + e + i) % 3, r + e, i) for e in range(m)]
+    elems[(i // 2 + r) % m] = tok
+    return ",".join(elems)
+
+
+def gen_plus_signed(tier, pools):
+    """yields (format, zone, text, modes, focus, label).
+    (1) every integer-valued column of every delimited format (BED3/6/12 start, stop, score, thickStart/End, blockCount;
+        bedGraph, wig, narrowPeak incl. summit, chrom.sizes size, GTF/GFF3 start/end, pairs pos1/pos2, SAM FLAG, POS, MAPQ, PNEXT, TLEN,
+        VCF POS), one column at a time: every tuple of plus_tuples over 1..3 records, the other columns at the unequal-width baseline;
+    (2) the elements of the list-valued integer columns (BED12 blockSizes / blockStarts; VCF INFO Integer Number=1 / . / 2): the
+        same tuples, the token one element of a list of 1..3;
+    (3) all integer columns of a format '+'-signed at once (all values; alternating with unsigned; one record only, below header
+        lines; with one '-' per column), 1..3 records, every read mode;
+    (4) float columns (bedGraph, wig, narrowPeak x 3, VCF INFO Float Number=1 and Number=A): decimal and scientific texts with
+        a leading '+' alone and next to unsigned / negative neighbours (label 'float-column': one class whatever the format)"""
+    quick = tier == "quick"
+    le = ("lazy", "eager")
+    k = 0
+    # (1) + (2, BED12 lists)
+    for fi, (fmt, spec) in enumerate(FORMATS.items()):
+        cols = spec["cols"][:spec.get("parsed")]
+        raw_ok = fmt != "vcf"
+        n_int = sum(1 for _, kind in cols if kind in PLUS_INT_KINDS or kind == "intlist")
+        for c, (name, kind) in enumerate(cols):
+            if kind not in PLUS_INT_KINDS and kind != "intlist":
+                continue
+            bed6_twin = (fmt in ("narrowpeak", "bed12") and c < 6) or fmt == "bed3of6"
+            if quick and bed6_twin:
+                continue                      # the BED6 columns of these formats: through bed6 (thorough: here too, 1..2 records)
+            U, Pl, M = plus_pools(tier, kind)
+            for n in ((1, 2, 3) if not bed6_twin else (1, 2)):
+                for ti, combo in enumerate(plus_tuples(U, Pl, M, n, quick)):
+                    k += 1
+                    if quick and n > 1 and (fmt in PLUS_SHARED_READER or n_int >= 4) and (ti + c + fi) % 2:
+                        continue              # quick: these columns share the tuples between them
+                    rows = baseline(fmt, pools, n)
+                    for r, p in enumerate(combo):
+                        tok = p[1](r, c)
+                        rows[r][c] = tok if kind != "intlist" else plus_list_text(tok, r, ti)
+                    zone = plus_zone([p[2] for p in combo])
+                    if n == 1:
+                        modes = le + (("raw",) if raw_ok else ())
+                    else:
+                        modes = (le[k % 2],)
+                    yield fmt, zone, render(fmt, rows), modes, name, None
+    # (2) VCF INFO Integer keys
+    hdr = vcf_header("plus-signed")
+    for ki, (key, number) in enumerate(PLUS_INFO_KEYS):
+        U, Pl, M = plus_pools(tier, "sint")
+        for n in (1, 2, 3):
+            for ti, combo in enumerate(plus_tuples(U, Pl, M, n, quick)):
+                k += 1
+                if n > (1 if quick else 2) and (ti + ki) % 3:
+                    continue                  # the three keys share the tuples between them (thorough: those of 3 records)
+                infos = []
+                for r, p in enumerate(combo):
+                    tok = p[1](r, ti)
+                    val = tok if number == "1" else plus_list_text(tok, r, ti, 2 if number == "2" else None)
+                    items = [[], ["DB"], ["AA=xy", "D=0.5"]][(ti + r) % 3] + ["%s=%s" % (key, val)] + [[], ["H2"], ["AF=0.5,12.25"]][(ti // 3 + r) % 3]
+                    infos.append(";".join(items))
+                rows = [vcf_fixed(r) + [infos[r]] for r in range(n)]
+                zone = info_zone(infos, INFO_DECL, plus_zone([p[2] for p in combo]))
+                yield "vcf-info", zone, render("vcf", rows, hdr), (le if n == 1 else (le[k % 2],)), "info-" + key, None
+    # (3) all integer columns at once
+    for fmt, spec in FORMATS.items():
+        cols = spec["cols"][:spec.get("parsed")]
+        icols = [(c, kind) for c, (_, kind) in enumerate(cols) if kind in PLUS_INT_KINDS or kind == "intlist"]
+        hdr_f = header_lines_of(fmt) if spec["comment"] is not None else []
+        modes_all = le + (("raw",) if fmt != "vcf" else ())
+        if not icols:
+            continue
+        for n in (1, 2, 3):
+            for variant in range(4):
+                k += 1
+                rows = baseline(fmt, pools, n)
+                signs = set()
+                for c, kind in icols:
+                    U, Pl, M = plus_pools(tier, kind)
+                    for r in range(n):
+                        if variant == 0:
+                            p = Pl[(r + c) % len(Pl)]
+                        elif variant == 1:
+                            p = Pl[(r * 2 + c) % len(Pl)] if (r + c) % 2 == 0 else U[(r + c) % len(U)]
+                        elif variant == 2:
+                            p = Pl[(r + 2 * c) % len(Pl)] if r == (c + 1) % n else U[(r + c) % len(U)]
+                        else:
+                            p = M[c % len(M)] if (M and r == c % n and n > 1) else Pl[(r + c + 1) % len(Pl)]
+                        signs.add(p[2])
+                        tok = p[1](r, c)
+                        rows[r][c] = tok if kind != "intlist" else plus_list_text(tok, r, c + variant)
+                header = hdr_f if variant == 2 else ()         # (from_raw_buffer takes the text below the header)
+                modes = modes_all if variant == 0 else (le if not quick else (le[k % 2],))
+                yield fmt, plus_zone(signs), render(fmt, rows, header), modes, "all-int-columns", None
+    # (4) float columns
+    short = LONG_FLOAT_SHORT
+    label = "float-column"
+    zone = "plus-signed-float"
+    ftoks = PLUS_FLOAT_TOKENS
+    for fmt, fcols in LONG_FLOAT_COLUMNS.items():
+        for j, c in enumerate(fcols):
+            name = FORMATS[fmt]["cols"][c][0]
+            for i, tok in enumerate(ftoks):
+                for n in (1, 2, 3):
+                    for pos in range(n):
+                        if quick and n > 1 and ((pos + i + j) % n or (i + j + n) % 2):
+                            continue
+                        rows = baseline(fmt, pools, n)
+                        for r in range(n):
+                            rows[r][c] = tok if r == pos else short[(i + r + pos) % len(short)]
+                        k += 1
+                        yield fmt, zone, render(fmt, rows), (le if not quick else (le[k % 2],)), name, label
+                rows = baseline(fmt, pools, 3)
+                for r in range(3):
+                    rows[r][c] = ftoks[(i + r * 3) % len(ftoks)]
+                yield fmt, zone, render(fmt, rows), (le if not quick else (le[i % 2],)), name, label
+    hdr = vcf_header("plus-signed-float")
+    for i, tok in enumerate(ftoks):
+        for key in ("D", "AF"):
+            for n in (1, 2, 3):
+                if quick and n != 1 + (i + (key == "AF")) % 3:
+                    continue
+                pos = (i + n) % n
+                infos = []
+                for r in range(n):
+                    if r != pos:
+                        infos.append(["D=" + short[(i + r) % len(short)], "AF=0.5,12.25", "A=3;AF=" + short[i % len(short)]][(i + r) % 3])
+                    elif key == "D":
+                        infos.append(";".join([["A=7"], [], ["AA=xy", "DB"]][i % 3] + ["D=" + tok]))
+                    else:
+                        m = 1 + (i + n) % 3
+                        elems = [short[(i + e) % len(short)] for e in range(m)]
+                        elems[(i // 2) % m] = tok
+                        infos.append(";".join(["AF=" + ",".join(elems)] + [[], ["DB"], ["MQ2=1,22"]][i % 3]))
+                rows = [vcf_fixed(r) + [infos[r]] for r in range(n)]
+                k += 1
+                yield "vcf-info", info_zone(infos, INFO_DECL, zone), render("vcf", rows, hdr), (le if not quick else (le[k % 2],)), "info-" + key, label
+
+
 def all_cases(tier):
     pools = make_pools(tier)
     for fmt in FORMATS:
@@ -1196,9 +1410,14 @@ def run(tier="quick", seed=0):
                     "re-declared with every other (Number, Type), order / IDs changed or exchanged, keys added or removed, with / without "
                     "INFO lines, same declarations in another header; five buffer types; lazy or eager, columns evaluated after each read "
                     "or after all reads; other formats: other header lines and record counts), each file against the spec-level parse of "
-                    "its own text.  No random sampling (seed unused). "
+                    "its own text.  Explicit '+' signs: every integer-valued column of every format (and the elements of BED12 block lists and "
+                    "of VCF INFO Integer Number=1/./2 keys) one at a time over 1..3 records with tuples of unsigned / '+'-signed (1,2,7%s "
+                    "digits, '+0') / '-'-signed tokens that hold at least one '+' token - columns with '+' and no '-' value (zone plus-signed) "
+                    "and with both (plus+minus-signed) - then all integer columns of a format '+'-signed at once; float columns with a "
+                    "leading '+' on decimal and scientific texts (zone plus-signed-float).  No random sampling (seed unused). "
                     "distinct = distinct (format, file text, read mode); every case is non-trivial (>= 1 record whose offsets are computed)"
-                    % ("" if quick else ",10", 10 if quick else len(INFO_PATTERNS), LONG_FLOAT_ULPS, 2 if quick else 3))
+                    % ("" if quick else ",10", 10 if quick else len(INFO_PATTERNS), LONG_FLOAT_ULPS, 2 if quick else 3,
+                       "" if quick else ",10,18"))
     col.bounds = {"records": "1..3", "text widths": [0, 1, 2, 7], "int digits": [1, 2, 7] + ([] if quick else [10]),
                   "float tokens": FLOAT_TOKENS, "list lengths": "1..3", "samples": "0..3", "header lines": "0..3",
                   "interior comments": "every subset of the n+1 gaps, n = 1..3",
@@ -1213,6 +1432,13 @@ def run(tier="quick", seed=0):
                                % ([k for k, _, _ in HS_BASE], ["%s/%s" % c for c in HS_COMBOS], len(list(hs_relations(tier))),
                                   "vcf-info all, genotype buffer types every 6th" if quick else "all five buffer types",
                                   ["%s/%s" % v for v in HS_VARIANTS]),
+                  "plus-signed numbers": "integer columns: every int / optional-int / list-of-int column of %s, VCF INFO Integer keys %s; "
+                                         "'+' tokens of %s digits and '+0', unsigned 1,2,7 digits, '-' 1,2 digits; 1..3 records, tuples with "
+                                         ">= 1 '+' token (2 records: %s; 3 records: covering subset); float tokens %s in %s and VCF INFO D, AF"
+                                         % ([f for f in FORMATS if any(k in PLUS_INT_KINDS or k == "intlist" for _, k in FORMATS[f]["cols"])],
+                                            [k for k, _ in PLUS_INFO_KEYS], "1,2,7" if quick else "1,2,7,10,18",
+                                            "covering subset" if quick else "every ordered pair", PLUS_FLOAT_TOKENS,
+                                            sorted(LONG_FLOAT_COLUMNS)),
                   "long float texts": "%d tokens: '%%.Nf' N in %s, '%%.Ne' N in %s of %d values 5e-7..1.2e8; digit strings of %s digits; "
                                       "float columns: bedgraph.value, wig.value, narrowpeak.signal/p/q_value, vcf INFO D (Number=1), "
                                       "AF (Number=A); tolerance %d ulp"
@@ -1241,6 +1467,9 @@ def run(tier="quick", seed=0):
             # when the budget cut the main loop
             for fmt, zone, text, modes, focus in gen_long_floats(tier, make_pools(tier)):
                 check_text(col, tmp, fmt, text, zone, modes, focus)
+            # numbers written with an explicit '+' sign: a bounded block of its own (quick < 10 s, thorough < 1 min)
+            for fmt, zone, text, modes, focus, label in gen_plus_signed(tier, make_pools(tier)):
+                check_text(col, tmp, fmt, text, zone, modes, focus, label)
     finally:
         logger.setLevel(level)
     return col.result()
